@@ -617,7 +617,7 @@ func init() {
 	core.Register(&core.Prop{
 		ID:    "C05",
 		Level: "model_checking",
-		Rule:  "every declaration hierarchy (all forest shapes, inner node = group or record-with-children, names, (min,max), single target position) up to the node bound x every unit sequence over the declared names plus an undeclared one up to the length bound, executed on the real matcher state machines (HierarchyReader with stub RecReader; EDI reader on bytes with/without final terminator; csv2 and fixedlength2 through NewSchema with header, header/footer and rows:2 records, with/without final newline, blank lines) and compared step by step with the recursive greedy reference; for the HierarchyReader and EDI drivers additionally every run with a target xpath filter that rejects the target instances containing unit k, for every k in a delivered instance (oracle: the unfiltered reference run minus those deliveries - same matching, terminal result and trees); a case is distinct by (driver, hierarchy, units, variant); states/transitions count hierarchies and matcher runs",
+		Rule:  "every declaration hierarchy (all forest shapes, inner node = group or record-with-children, names, (min,max), single target position) up to the node bound x every unit sequence over the declared names plus an undeclared one up to the length bound, executed on the real matcher state machines (HierarchyReader with stub RecReader; EDI reader on bytes with/without final terminator; csv2 and fixedlength2 through NewSchema with header, header/footer and rows:2 records, with/without final newline, blank lines) and compared step by step with the recursive greedy reference; for the HierarchyReader and EDI drivers additionally every run with a target xpath filter that rejects the target instances containing unit k, for every k in a delivered instance (oracle: the unfiltered reference run minus those deliveries - same matching, terminal result and trees); a case is distinct by (driver, hierarchy, units, variant); states/transitions count hierarchies and matcher runs; every hierarchy also spelled with default-valued min / max left out; csv2 / fixedlength2: a trailing line of blanks must act like an undeclared line",
 		Assumptions: []string{
 			"max: 0 is outside the alphabet (the property quantifies over max in {1,2,..,unbounded})",
 			"unit payloads are a serial number; tokenisation of payloads is C06/C07's subject",
